@@ -691,6 +691,10 @@ def _gen_once(rng: random.Random) -> dict:
             proj["requires-python"] = rp
         if readmes:
             proj["readme"] = rng.choice([readmes[0], Inline({"file": readmes[0], "content-type": "text/markdown"})])
+        elif p(0.25):
+            # PEP 621 inline readme: the description is this text wherever the project lives (D42)
+            proj["readme"] = Inline({"text": "Inline readme ü\n\nsecond paragraph", "content-type": "text/plain"})
+            feats.add("inline_readme")
         if lic:
             proj["license"] = rng.choice([lic, Inline({"text": lic})])
         if authors:
